@@ -4,14 +4,15 @@
 From Coq Require Import String.
 From Coq Require Import List Ascii ZArith Bool Lia.
 From CGV Require Import Base.PyBase Base.PyVal Base.NxGraph Resolve.Bonding Resolve.GraphOps Resolve.Pipeline
-     Resolve.StepCheck Resolve.MapDefs.
+     Resolve.StepCheck Resolve.PipelineFull Resolve.FullCheck Resolve.MapDefs.
 Import ListNotations.
 Open Scope Z_scope.
 
 Record case := { c_kind : nat;               (* 0 = metamorphic pair, 1 = must be rejected *)
                  c_orig : stepcase; c_modf : stepcase; c_rho : list (Z * Z) }.
 
-Definition corr_ok (c : case) : bool := step_corr (c_orig c) && step_corr (c_modf c).
+Definition corr_ok (c : case) : bool :=
+  step_corr (c_orig c) && step_corr (c_modf c) && full_corr (c_orig c) && full_corr (c_modf c).
 
 Definition strip_fragid (g : graph) : graph :=
   map (fun n => {| nk := nk n; na := adel (S "fragid") (na n); nadj := nadj n |}) g.
